@@ -543,6 +543,47 @@ def replay(ctx, res, path):
             res.add_violation(rep)
 
 
+def hangup_scripts(rng, tier):
+    """a remote party hanging up (RemoveCallback) or reconnecting (AddCallback of the same id) while a Put is parked in the
+    middle of its dispatch loop behind a stalled consumer: the store must not panic ("send on closed channel" would kill
+    the aggregator / sync goroutine, i.e. the process) and must go on storing afterwards"""
+    S = []
+    for k in range(3 if tier == "quick" else 20):
+        r = rng.fork(f"hangup{k}")
+        nb = r.range(4, 8)
+        ops = ["init", "add A gate"] + [f"add B{i} fast" for i in range(nb)]
+        ops = r.shuffle(ops[1:])
+        ops = ["init"] + ops + ["put"] * 102
+        who = r.shuffle([f"B{i}" for i in range(nb)])
+        ops += [(f"remove {w}" if r.chance(2, 3) else f"add {w} fast") for w in who]
+        ops += ["release A 400", "wait", "wait", "put", "put", "last"]
+        S.append(ops)
+    return S
+
+
+def explore_hangup(ctx, res, tier):
+    H = os.path.join(core.BUILD, "verifh")
+    n = bad = 0
+    for ops in hangup_scripts(ctx["rng"].fork("hangup"), tier):
+        rc, outs, err = core.run_lines(H, ["cbstore"], ops, timeout=300, env=dict(os.environ, VERIF_WATCHDOG_MS="300", GOMEMLIMIT="6GiB"))
+        n += len(ops)
+        why = None
+        if rc != 0 or len(outs) < len(ops):
+            why = f"the harness process died after op {len(outs)}: {err[-300:]}"
+        else:
+            for i, (o, a) in enumerate(zip(ops, outs)):
+                if "panic" in a:
+                    why = f"op {i} `{o}` answered `{a[:120]}`: a Put that was parked behind a stalled consumer panicked after another consumer hung up"
+                    break
+            if why is None and not (outs[-1].isdigit() and int(outs[-1]) >= 104):
+                why = f"after the hang-ups the store did not go on storing: last = {outs[-1]}, the two Puts answered {outs[-3]}, {outs[-2]}"
+        if why:
+            bad += 1
+            res.add_violation({"engine": "cbstore", "kind": "impl-violates", "ops": ops, "observed": outs[-12:], "oracle": why})
+    res.cov.setdefault("distribution", {})["hangup_during_parked_put"] = {"scripts_ops": n, "violations": bad}
+    res.cov["evaluations"] = res.cov.get("evaluations", 0) + n
+
+
 def explore(ctx, res):
     """when a proof / tie / build step broke (ctx['deep']) search with the quick budget first and escalate to the thorough
     one only if that found no failing input"""
@@ -551,5 +592,6 @@ def explore(ctx, res):
     tiers = ["quick", "thorough"] if ctx["deep"] and ctx["tier"] == "quick" else ["thorough" if ctx["deep"] else ctx["tier"]]
     for t in tiers:
         explore_tier(ctx, res, t)
+        explore_hangup(ctx, res, t)
         if any(found for _, found in res.violations):
             return
